@@ -4485,7 +4485,20 @@ class Fparser2Reader():
                                           ("dim", Literal(str(idx),
                                                           integer_type))]))
             else:
-                loop.addchild(mask_shape[idx-1].upper.copy())
+                # The extent of this dimension is upper - lower + 1 (the
+                # bounds are those of the declaration or of the section).
+                lower = mask_shape[idx-1].lower
+                if isinstance(lower, Literal) and lower.value == "1":
+                    loop.addchild(mask_shape[idx-1].upper.copy())
+                else:
+                    add_op = BinaryOperation.Operator.ADD
+                    sub_op = BinaryOperation.Operator.SUB
+                    loop.addchild(BinaryOperation.create(
+                        add_op,
+                        BinaryOperation.create(
+                            sub_op, mask_shape[idx-1].upper.copy(),
+                            lower.copy()),
+                        Literal("1", integer_type)))
 
             # Add loop increment
             loop.addchild(Literal("1", integer_type))
